@@ -397,6 +397,14 @@ def sep_ok(ws, variant):
     return True
 
 
+def resolution_ok(chans):
+    """float resolution: the final time is below 2^40 steps of the finest pulse (otherwise idle points of continuous
+    pulses, computed as last + step/5 ..., collapse in double precision: recorded finding)"""
+    ends = [ws[-1][0] + ws[-1][1][-1] for ws in chans.values() if ws]
+    steps = [w[1][1] - w[1][0] for ws in chans.values() for w in ws]
+    return not ends or max(ends) < min(steps) * 2**40
+
+
 def precondition(ws):
     """sorted, non-overlapping, positive durations, well-formed waveforms, one kind per channel"""
     last = F(0)
@@ -615,7 +623,9 @@ class C12(PropertyCheck):
         "Scheduler.schedule (C11) supplies the start times",
         "py/props/c12.py (harness, oracle on exact Fractions)",
     ]
-    assumptions = ["instructions of one channel do not overlap (C11's no-overlap clause is refuted separately; such schedules are outside Chain)",
+    assumptions = ["float resolution: the final time is below 2^40 steps of the finest pulse (beyond that, points computed as "
+                   "last + step/5 collapse in double precision; recorded finding); the theorems themselves are exact",
+                   "instructions of one channel do not overlap (C11's no-overlap clause is refuted separately; such schedules are outside Chain)",
                    "scale hypothesis Sep (explicit in every theorem)"]
     rule = ("case = (gate list with one synthetic instruction per gate: scalar / discrete / continuous waveform, dyadic times "
             "m*2^e, e in [-30,17]; schedule mode None/ASAP/ALAP) compiled by GateCompiler.compile and by the model fed with the "
@@ -914,6 +924,8 @@ class C12(PropertyCheck):
             if not w.get("full") and not all(sep_ok(ws, v) for ws in chans.values()):
                 # witnesses of recorded findings carry "full": true and are judged at full strength
                 return False, "outside the scale hypothesis Sep (the class of the recorded finding), not judged"
+            if not w.get("full") and not resolution_ok(chans):
+                return False, "final time >= 2^40 steps of the finest pulse (float resolution, recorded finding class), not judged"
             if st != "ok":
                 return True, f"compile raised {payload} for a valid schedule"
             got = {lab: (tl, cf) for lab, tl, cf in payload}
@@ -941,6 +953,8 @@ class C12(PropertyCheck):
                 return False, "precondition not met"
             if not w.get("full") and not all(sep_ok(ws, v) for ws in chans.values()):
                 return False, "outside the scale hypothesis Sep (the class of the recorded finding), not judged"
+            if not w.get("full") and not resolution_ok(chans):
+                return False, "final time >= 2^40 steps of the finest pulse (float resolution, recorded finding class), not judged"
             st, payload = self._run_direct_impl(inp)
             if st != "ok":
                 return True, f"_concatenate_pulses raised {payload} for a valid schedule"
@@ -961,6 +975,8 @@ class C12(PropertyCheck):
             chans = windows_of(mcase, ordered_instr(mcase, [F(x) for x in starts] if starts else None, perm))
             if not chans:
                 return False, "no control channel"
+            if not w.get("full") and not (all(sep_ok(ws, v) for ws in chans.values()) and resolution_ok(chans)):
+                return False, "outside the scale hypothesis Sep (the class of the recorded finding), not judged"
             # float schedules: only the structural clauses are checked exactly
             for lab, tl, cf in payload:
                 g = list(tl)
@@ -1024,7 +1040,7 @@ class C12(PropertyCheck):
                 continue
             if not chans or not all(precondition(ws) for ws in chans.values()):
                 continue
-            if only_sep and not all(sep_ok(ws, v) for ws in chans.values()):
+            if only_sep and not (all(sep_ok(ws, v) for ws in chans.values()) and resolution_ok(chans)):
                 continue
             done += 1
             w = {"kind": "synthetic", "case": case}
